@@ -408,7 +408,7 @@ def _sig_match(pattern, sig):
 # ---------------------------------------------------------------------- generic table check
 def table_check(ck, module, cfg, driver, *, judge=None, drv_args=(), sig=None, workers=None,
                 tlc_timeout=600, drv_timeout=900, sample_every=None, nontrivial=None, cases=None,
-                constants=None, limit=None, binary=None):
+                constants=None, limit=None, binary=None, shards=1):
     """TLC enumerates cases ({"c": case, "e": expected}) from a spec; the Go driver executes each case
     on the real code and answers {"i": index, "o": observation}; judge(case, expected, obs) -> None|str."""
     if cases is None:
@@ -425,7 +425,16 @@ def table_check(ck, module, cfg, driver, *, judge=None, drv_args=(), sig=None, w
     elif ck.exhaustive is None:
         ck.exhaustive = True
     b = binary or ck.build(driver)
-    recs = ck.drive(b, drv_args, input_lines=[c["c"] for c in cases], timeout=drv_timeout)
+    if shards > 1 and len(cases) >= 4 * shards:      # independent cases: several driver processes, indices shifted back
+        import concurrent.futures
+        step = (len(cases) + shards - 1) // shards
+        def part(k):
+            rs = ck.drive(b, drv_args, input_lines=[c["c"] for c in cases[k * step:(k + 1) * step]], timeout=drv_timeout)
+            return [dict(r, i=r["i"] + k * step) for r in rs if "i" in r]
+        with concurrent.futures.ThreadPoolExecutor(max_workers=shards) as ex:
+            recs = [r for rs in ex.map(part, range(shards)) for r in rs]
+    else:
+        recs = ck.drive(b, drv_args, input_lines=[c["c"] for c in cases], timeout=drv_timeout)
     byi = {r["i"]: r for r in recs if "i" in r}
     if len(byi) != len(cases):
         raise Infra("driver %s answered %d of %d cases\n%s" % (driver, len(byi), len(cases), getattr(ck, "last_stderr", "")[-2000:]))
